@@ -816,8 +816,8 @@ theorem nf_mInsertMap (c : Var) (w : Nat) : stepRes st (.mInsertMap c w) ≠ .fa
 theorem nf_mRemove (c : Var) (k : Nat) : stepRes st (.mRemove c k) ≠ .fault := by
   apply stepRes_ne_fault; intro ms hc
   simp only [compile] at hc; obtain ⟨hg, rfl⟩ := guard_some hc
-  simp only [Bool.and_eq_true, decide_eq_true_eq] at hg
-  exact execAll_one_def (removeKey_def h _ _ (valid_of hg.1 (by rw [hg.2]; simp)) (srcOK_ext st k))
+  simp only [Bool.and_eq_true, Bool.or_eq_true, decide_eq_true_eq] at hg
+  exact execAll_one_def (removeKey_def h _ _ (valid_of hg.1 (mu_ne_A hg.2)) (srcOK_ext st k))
 
 theorem nf_mRemoveAt (c : Var) (i : Nat) : stepRes st (.mRemoveAt c i) ≠ .fault := by
   apply stepRes_ne_fault; intro ms hc
